@@ -995,3 +995,135 @@ def lookup_sees_one_queue_state(ctx, p):
             lib.held_at(ctx, p + 'a lookup-holds-queue-guard-from-first-search %s #%d' % (b.path, i), b, s, '.HashColumn.reindex',
                         'the reindex-queue guard is taken before the current index is searched: the lookup sees one state of (current index, queue), a concurrent move-and-drop of the old table cannot fall between its two searches')
     ctx.ob(p + 'a0 two-table-lookups', 'anchor', 'column::HashColumn', 'the lookups that search the current index and the reindex queue under a guard they take themselves were found (HashColumn::get)', n >= 1, 'found %d' % n)
+
+
+OVERLAY_VECS = ['.LogOverlays.index', '.LogOverlays.value', '.LogOverlays.ref_count']
+
+
+def overlay_slot_addressed_by_log_index(ctx, p):
+    """LogOverlays keeps one overlay per table in three vectors; the slot of a table is `TableId::log_index()` (column * N + kind
+    within the column). Every positional access to those vectors takes its position from log_index() of a table id - a slot computed
+    any other way (size tier or index bits alone) is another table's overlay for every column but the first, and clearing or filling
+    it un-shadows / mis-shadows that table's bytes while the applier rewrites them."""
+    F = ctx.F
+    n = 0
+    for b in sorted(F.bodies.values(), key=lambda x: x.path):
+        for bi, t in b.calls():
+            if bi not in b.normal_blocks() or len(t['a']) != 2:
+                continue
+            if not call_matches(t, ['re:::get$', 're:::get_mut$', 're:Index<.*>>::index$', 're:IndexMut<.*>>::index_mut$', 're:::get_unchecked(_mut)?$', 're:::remove$', 're:::swap_remove$']):
+                continue
+            fl = lib.receiver_fields(b, t, 0)
+            hit = [v for v in OVERLAY_VECS if v in fl]
+            # the per-table map inside an overlay is keyed by chunk / entry number, not by table: only accesses to the vector itself count
+            if not hit or any(m in fl for m in ('.IndexLogOverlay.map', '.ValueLogOverlay.map', '.RefCountLogOverlay.map')):
+                continue
+            a = t['a'][1]
+            ok = False
+            det = 'position is a constant'
+            if op_place(a) is not None:
+                sl = backward_slice(b, [op_place(a)])
+                ok = any(c.endswith('::log_index') for c in sl.calls)
+                det = 'position derives from %s' % (sorted(c.split('::')[-1] for c in sl.calls)[:4] or sorted(sl.fields)[:4] or 'nothing recognisable')
+            n += 1
+            ctx.ob(p + 'a overlay-slot-is-log_index %s %s #%s' % (b.path, hit[0], (t.get('r') or t.get('f') or '').split('::')[-1]), 'K4-provenance', b.path,
+                   'the overlay of a table is found at TableId::log_index() in the per-kind overlay vector', ok, '' if ok else det, b.loc(bi))
+    ctx.ob(p + 'a0 overlay-slot-accesses', 'anchor', 'log::LogOverlays', 'the positional accesses to the three overlay vectors were found (queries, merge at end_record, cleanup at end_read)', n >= 8, 'found %d' % n)
+
+
+def index_hit_verified_against_key(ctx, p):
+    """An index entry carries ~54 bits of the hashed key; queued older index tables keep copies of entries already carried over.
+    A planned write (set / reference / dereference / remove) may treat an entry as 'this key is present at that address' only after
+    the key tail stored with the value was compared with the key - else the operation is applied to whichever key now owns the slot."""
+    F = ctx.F
+    si = ctx.body('column::HashColumn::search_index')
+    if not si:
+        return
+    VER = ['table::ValueTable::has_key_at', 're:^table::ValueTable::query$', 'column::Column::get_value']
+    ver = lib.sites_reaching(si, VER)
+    somes = [bi for bi in si.normal_blocks() for s in si.blocks[bi]['s']
+             if s['k'] == 'assign' and s['r']['k'] == 'agg' and s['r']['ak'] == 'Adt:std::option::Option::Some'
+             and any(op_place(a) is not None and 2 in backward_slice(si, [op_place(a)]).params for a in s['r']['a'])]
+    ctx.ob(p + 'a0 writer-search-anchors', 'anchor', si.path, 'search_index compares the stored key and has one "found" result', len(ver) >= 1 and len(somes) >= 1, 'verify sites %s found-sites %s' % (ver, somes))
+    for s in somes:
+        if ver:
+            lib.result_guards(ctx, p + 'a found-only-after-key-comparison', si, ver, s, 'search_index reports an entry as the key\'s only depending on the outcome of the stored-key comparison')
+        else:
+            ctx.ob(p + 'a found-only-after-key-comparison', 'K3-result-checked', si.path, 'search_index reports an entry as the key\'s only depending on the outcome of the stored-key comparison', False,
+                   'no comparison with the key stored in the value slot precedes the "found" result', si.loc(s))
+    for v in ver:
+        t = si.term(v)
+        ok = any(op_place(a) is not None and 1 in backward_slice(si, [op_place(a)]).params for a in t['a'])
+        ctx.ob(p + 'b comparison-uses-the-searched-key', 'K4-provenance', si.path, 'the comparison is made with the key that is being searched', ok, '', si.loc(v))
+    hk = ctx.body('table::ValueTable::has_key_at')
+    if hk:
+        pk = lib.sites_reaching(hk, ['table::ValueTable::partial_key_at', 're:^table::ValueTable::for_parts'])
+        eq = [bi for bi, t in hk.calls() if bi in hk.normal_blocks() and call_matches(t, ['re:PartialEq.*>::(eq|ne)$'])]
+        ctx.ob(p + 'c has_key_at-compares-the-stored-tail', 'K1-must-pass', hk.path, 'has_key_at fetches the key tail stored in the slot and compares it for equality (not merely "slot is occupied")',
+               bool(pk) and bool(eq) and all(any(e in hk.reaches(x) for e in eq) for x in pk), 'fetch sites %s equality sites %s' % (pk, eq))
+
+
+def record_goes_to_the_table_it_names(ctx, p):
+    """A log action names its index / ref-count table. Validation and application hand the action's bytes to a table object; that
+    object has to be the table the action names: either it was looked up BY the id (queue search), or it is the current table and
+    the call is reached only on the equal edge of `current.id == record.table`. Parsing an action against another table (another
+    number of index bits) validates garbage, and the applier then skips or misplaces it (a record applied in part)."""
+    F = ctx.F
+    n = 0
+    for fn in ('column::HashColumn::validate_plan', 'column::HashColumn::enact_plan'):
+        b = ctx.body(fn)
+        if not b:
+            continue
+        eqs = [bi for bi, t in b.calls() if call_matches(t, ['re:(index::TableId|ref_count::RefCountTableId) as .*PartialEq.*::(eq|ne)$'])
+               and any(op_place(a) is not None and any(f.endswith('Action.table') for f in backward_slice(b, [op_place(a)]).fields) for a in t['a'])]
+        same = set()
+        for x in eqs:
+            ne = call_matches(b.term(x), ['re:::ne$'])
+            for (sb, tr, fa) in lib.bool_outcome_edges(b, [x]):
+                same.add(fa if ne else tr)
+        for bi, t in b.calls():
+            if bi not in b.normal_blocks() or not call_matches(t, ['re:^index::IndexTable::(validate_plan|enact_plan)$', 're:^ref_count::RefCountTable::(validate_plan|enact_plan)$']):
+                continue
+            n += 1
+            fl = lib.receiver_fields(b, t, 0)
+            by_id = any(f.endswith('Action.table') for f in fl)
+            only_equal = bool(same) and b.find_path([0], {bi}, removed_edges=frozenset(same)) is None
+            ok = by_id or only_equal
+            kind = 'index' if 'IndexTable' in (t.get('r') or t.get('f') or '') else 'ref-count'
+            ctx.ob(p + 'a action-handed-to-the-table-it-names %s %s %s' % (fn.split('::')[-1], kind, 'looked-up' if by_id else 'current'), 'K3-guard', fn,
+                   'the table object an index / ref-count action is validated against or applied to was looked up by the action\'s table id, or is the current table reached only when its id equals the action\'s',
+                   ok, '' if ok else 'reached without comparing the table id with the one the action names (receiver derives from %s)' % sorted(f for f in fl if 'Tables' in f or 'Reindex' in f)[:3], b.loc(bi))
+    ctx.ob(p + 'a0 action-dispatch-sites', 'anchor', 'column::HashColumn', 'the validate / apply dispatch sites for index and ref-count actions were found (2 kinds x current/queued x validate/apply)', n >= 8, 'found %d' % n)
+
+
+def eof_is_the_only_end_of_data(ctx, p):
+    """which read outcome may be taken for "this log file has no (more) records": only io::ErrorKind::UnexpectedEof from a read
+    that asked for a complete header; and a first record id is produced only from a completely read header."""
+    F = ctx.F
+    def eof_guarded(fn, site, label, desc):
+        b = F.body(fn)
+        kinds = lib.errkind_guarded(b, site)
+        ctx.ob(label, 'K3-guard', fn, desc, kinds == {'UnexpectedEof'}, 'guarded by error kinds: %s' % (sorted(kinds) or 'none'), b.loc(site))
+    rn = ctx.body('log::Log::read_next')
+    if rn:
+        pushes = lib.field_effect_sites(rn, ['re:VecDeque.*::push_back$'], '.Log.cleanup_queue')
+        ctx.ob(p + 'g0 end-of-log-anchor', 'anchor', rn.path, 'read_next retires a finished log file onto the cleanup queue', len(pushes) >= 1, str(pushes))
+        for s in pushes:
+            eof_guarded(rn.path, s, p + 'g log-retired-only-on-eof', 'a log file is declared fully read (queued for truncation) only on the equal edge of io::Error::kind() == UnexpectedEof; any other read error is returned')
+    ol = ctx.body('log::Log::open_log_file')
+    if ol:
+        nones = [bi for bi in ol.normal_blocks() for st in ol.blocks[bi]['s'] if st['k'] == 'assign' and st['r']['k'] == 'agg' and st['r']['ak'] == 'Adt:std::option::Option::None']
+        kd = ol.call_sites('std::io::Error::kind')
+        ctx.ob(p + 'h0 headerless-log-anchor', 'anchor', ol.path, 'open_log_file reports "no first record" (file deleted at open) in two places and inspects the error kind', len(nones) == 2 and len(kd) == 1, '%s %s' % (nones, kd))
+        rd = ol.call_sites('log::Log::read_first_record_id')
+        for s in nones:
+            if rd and s in ol.reaches(rd[0]):
+                eof_guarded(ol.path, s, p + 'h headerless-only-on-eof', 'a log file is treated as header-less (and deleted by Log::open) after a failed header read only when the error kind is UnexpectedEof')
+        # a first record id comes only from a header that was read completely: the bytes are obtained with read_exact (a short file
+        # gives UnexpectedEof), never with a plain read() whose short count would leave part of the buffer as it was initialised
+        fam = lib.family(F, ol.path)
+        exact = [(x.path, bi) for x in fam for bi, t in x.calls() if bi in x.normal_blocks() and call_matches(t, ['re:std::io::Read>?::read_exact$', 're:Read for .*>::read_exact$', 're:::read_exact$'])]
+        plain = [(x.path, bi) for x in fam for bi, t in x.calls() if bi in x.normal_blocks() and call_matches(t, ['re:as std::io::Read>::read(_to_end|_vectored|_to_string|_buf)?$', 're:FileExt>::read_at$', 're:^std::io::Read::read(_to_end|_vectored|_to_string|_buf)?$'])]
+        ctx.ob(p + 'i first-record-id-from-a-complete-header', 'K4-confinement', ol.path,
+               'open_log_file and its helpers obtain the header bytes with read_exact only (a file shorter than a header is reported as UnexpectedEof, not decoded from a partly filled buffer)',
+               bool(exact) and not plain, 'read_exact sites %s, other read calls %s' % (exact, plain))
